@@ -37,6 +37,30 @@ CHECKS = {
             "Miri: Tree Borrows; ASan: detect_leaks=0 (the arena is freed with the heap)",
         ],
     },
+    "C15": {
+        "engines": NATIVE,
+        "level": "exploration",
+        "rule": "doubles from seed-independent structured families (every power of 2 and of 10 with +-3 ulp neighbours, every binary "
+                "exponent x {0, max, alternating, single-bit} mantissas, integers around 2^31/2^32/2^53/1e21, half-way cases per digit "
+                "count, notation switch regions) plus seeded uniform random bit patterns, each pushed through number_to_string and "
+                "string_to_number natively; sampled values additionally through the in-program paths (String, template, concat, toString, "
+                "JSON.stringify, literals, Number, unary +, parseFloat, JSON.parse, | & ^ ~ << >> >>>, toFixed/toPrecision/toExponential "
+                "for digits 0..100, toString/parseInt for radix 2..36). A case is non-trivial unless it is an exact small integer; "
+                "cases are distinct double bit patterns / (operation, operand) pairs",
+        "exhaustive": "the structured families are enumerated completely at every seed; random bit patterns are sampled per shard",
+        "floor": {"quick": 100000, "thorough": 1000000},
+        "technique": "runtime monitoring: independent reference oracles (shortest-round-trip digits checked by read-back and minimality, "
+                     "exact decimal arithmetic with round-half-up, modular ToInt32) over enumerated and random inputs, native and in-program",
+        "level_text": "Every finite double of the structured families and millions of random bit patterns are converted by tsrun and judged "
+                      "by oracles that do not share code with it: the output must be in Number::toString layout, read back to the same "
+                      "double, be minimal in digits and equal the independent shortest formatter; numeric strings must read as the "
+                      "correctly rounded double; integer conversions, the fixed/precision/exponential formatters and radix conversion are "
+                      "compared in-program against exact arithmetic.",
+        "level_note": "trusts Rust's float parsing/printing (std) as the exact-decimal and correctly-rounded reference; fractional radix "
+                      "output is implementation-approximated in ECMAScript and only required to denote the value",
+        "assumptions": ["Rust std float formatting ({:e} shortest, {:.N} exact) and parsing are correct",
+                        "ties in toFixed/toPrecision/toExponential round to the larger magnitude, as the specification's 'pick the larger n' prescribes"],
+    },
     "C18": {
         "engines": NATIVE,
         "level": "exploration",
